@@ -65,3 +65,7 @@ Proof.
   exists wG, wH. destruct centre_refuted_witness as (H1 & H2 & H3 & H4 & (T & ET) & H5).
   repeat split; auto. exists T. split; [exact ET|]. unfold w_regen in H5. rewrite ET in H5. inversion H5. auto.
 Qed.
+
+(** non-vacuity of C04_centre_exact: the witness satisfies its hypotheses, backwards too *)
+Example w_exact_bwd : match regenerate true true wG wH with Some T => regen_exact T wH wG | None => true end = false.
+Proof. vm_compute. reflexivity. Qed.
